@@ -189,6 +189,7 @@ def task_formulas(t):
     names = names_for(4, env.SEED)
     U = Universe(names)
     order = sweep.orders(names)[oi]
+    which, _, gc_mode = which.partition(':')
     if which == 'autoref':
         bdd = S.new_autoref(order)
     else:
@@ -204,14 +205,19 @@ def task_formulas(t):
         held.append((r, f))
     den = O.Den(raw, U)
     if fam == 'nodes':
-        forms = list(gen_nodes(names, sorted(raw._succ)))
+        forms = list(gen_nodes(names, sorted(
+            {abs(r) for r, _ in held} if gc_mode else raw._succ)))
     else:
         forms = dict(families(names, tier))[fam]
-    ev = Evaluator(U, node_mask=lambda n: den(n) if abs(n) in raw._succ else _bad(n))
+    ev = Evaluator(U, node_mask=lambda n: O.Den(raw, U)(n) if abs(n) in raw._succ else _bad(n))
     mine = sweep.shard(forms, ns)[si]
     for k, s in enumerate(mine):
         if focus is not None and s != focus:
             continue
+        if gc_mode and k % 3 == 2 and focus is None:
+            # a history: unreferenced results (and the variable nodes nobody holds) are
+            # collected between formulas, their numbers are re-used by the next ones
+            raw.collect_garbage()
         case = dict(task=t[:-1] + (s,), formula=s, order=sweep.order_str(order), manager=which)
         try:
             want = ev(s)
@@ -364,6 +370,9 @@ def plan(tier):
             ts.append(('r', oi, ('bdd', 'autoref')[oi % 2], None))
             ts.append(('r', oi, ('autoref', 'bdd')[oi % 2] + ':' + ('K1', 'K2', 'rev')[oi % 3],
                        None))
+        for k, fam in enumerate(fams):
+            ts.append(('f', fam, orders[k % len(orders)], ('bdd:gc', 'autoref:gc')[k % 2], 0, 1,
+                       tier, None))
     else:
         for fam in fams:
             for oi in range(0, 24, 2):
@@ -371,6 +380,9 @@ def plan(tier):
                     ns = 4 if fam in ('binders', 'ite+constants', 'chains', 'pairs') else 1
                     for si in range(ns):
                         ts.append(('f', fam, oi, which, si, ns, tier, None))
+        for k, fam in enumerate(fams):
+            for oi in (1, 10, 19):
+                ts.append(('f', fam, oi, ('bdd:gc', 'autoref:gc')[(k + oi) % 2], 0, 1, tier, None))
         for oi in range(6):
             for which in ('bdd', 'autoref'):
                 ts.append(('r', oi, which, None))
